@@ -1211,3 +1211,408 @@ func runTypeRecorded(p *Program, r *RuleResult) {
 	}
 	r.count("consumed names", n)
 }
+
+// R-JUDGEMENT-PROPAGATES (C07, C05, C01): the verdict of a premise is the verdict of the rule.
+func init() {
+	register(&Rule{Name: "R-JUDGEMENT-PROPAGATES", Min: 15,
+		Doc: "every typing judgement invoked inside a typing rule or a typechecking phase (an invoke of typecheckForm) has its result returned as the rule's own result or tested, with the error branch leaving through an error exit: no success exit is reachable from the call unless the result was found nil",
+		Run: runJudgementPropagates})
+}
+
+func runJudgementPropagates(p *Program, r *RuleResult) {
+	n := 0
+	for _, fn := range p.SrcFuncs {
+		if fn.Pkg == nil || fn.Pkg.Pkg.Path() != processPkg || fn.Blocks == nil {
+			continue
+		}
+		view := p.View(fn)
+		ord := 0
+		for _, c := range p.callsIn(fn) {
+			call, ok := c.(*ssa.Call)
+			if !ok || !call.Common().IsInvoke() || call.Common().Method.Name() != "typecheckForm" {
+				continue
+			}
+			n++
+			ord++
+			construct := fmt.Sprintf("premise#%d", ord)
+			bad := ""
+			seen := map[*ssa.BasicBlock]bool{}
+			var walk func(b *ssa.BasicBlock, from int)
+			walk = func(b *ssa.BasicBlock, from int) {
+				if bad != "" {
+					return
+				}
+				ins := view.Instrs(b)
+				for i := from; i < len(ins); i++ {
+					ret, ok := ins[i].(*ssa.Return)
+					if !ok || len(ret.Results) == 0 {
+						continue
+					}
+					res := ret.Results[len(ret.Results)-1]
+					if res == ssa.Value(call) {
+						continue // returned as is
+					}
+					if ph, ok := res.(*ssa.Phi); ok {
+						uses := false
+						for _, e := range ph.Edges {
+							if e == ssa.Value(call) {
+								uses = true
+							}
+						}
+						if uses {
+							continue
+						}
+					}
+					if isErrorValue(res, view, b, map[ssa.Value]bool{}) {
+						continue // an error exit
+					}
+					bad = p.instrPos(ret)
+				}
+				// the edge on which the result is nil ends the search (the fact may be lost at
+				// the entry of the successor when that is a join, e.g. a loop header)
+				nilEdge := -1
+				if len(ins) > 0 {
+					if iff, ok := ins[len(ins)-1].(*ssa.If); ok {
+						if bo, ok := iff.Cond.(*ssa.BinOp); ok && (bo.Op == token.NEQ || bo.Op == token.EQL) {
+							if (bo.X == ssa.Value(call) && isNilConst(bo.Y)) || (bo.Y == ssa.Value(call) && isNilConst(bo.X)) {
+								if bo.Op == token.NEQ {
+									nilEdge = 1
+								} else {
+									nilEdge = 0
+								}
+							}
+						}
+					}
+				}
+				for i, su := range view.Succs(b) {
+					if i == nilEdge || seen[su] || view.holdsAt(su, call, factNil) {
+						continue
+					}
+					seen[su] = true
+					walk(su, 0)
+				}
+			}
+			walk(call.Block(), indexIn(call.Block(), call)+1)
+			if bad != "" {
+				r.add(fnName(fn), construct, Violated, p.instrPos(call), "the result of this judgement is not what the rule returns and success ("+bad+") is reachable without it having been found nil: an ill-typed continuation is accepted")
+			} else {
+				r.add(fnName(fn), construct, Holds, p.instrPos(call), "")
+			}
+		}
+	}
+	r.count("judgement premises", n)
+}
+
+// R-ROLE-GUARD (C01, C07): what the interpreter refuses to do at run time because a channel
+// is (not) the process's own, the typing rule refuses at check time.
+func init() {
+	register(&Rule{Name: "R-ROLE-GUARD", Min: 8,
+		Doc: "for every form whose transition method (either interpreter) ends in the run-time error helper when a name field is / is not `self`: every success exit of that form's typing rule lies on the branch where the provider test of the same field has the value the interpreter insists on",
+		Run: runRoleGuard})
+}
+
+func runRoleGuard(p *Program, r *RuleResult) {
+	n := 0
+	type req struct {
+		field string
+		need  bool
+		ctx   roleFacts // roles already established where the interpreter tests
+		where string
+	}
+	for _, m := range p.typecheckMethods() {
+		var reqs []req
+		seenReq := map[string]bool{}
+		for _, fam := range []string{"Transition", "TransitionNP"} {
+			tr := p.MethodOpt(m.T, fam)
+			if tr == nil || tr.Blocks == nil {
+				continue
+			}
+			tview := p.View(tr)
+			recv := tr.Params[0].Name()
+			for _, b := range tr.Blocks {
+				if len(b.Instrs) == 0 {
+					continue
+				}
+				iff, ok := b.Instrs[len(b.Instrs)-1].(*ssa.If)
+				if !ok {
+					continue
+				}
+				cond, neg := iff.Cond, false
+				if u, ok := cond.(*ssa.UnOp); ok && u.Op == token.NOT {
+					cond, neg = u.X, true
+				}
+				ap := accessPath(cond)
+				if !strings.HasPrefix(ap, recv+".") || !strings.HasSuffix(ap, ".IsSelf") {
+					continue
+				}
+				field := strings.TrimSuffix(strings.TrimPrefix(ap, recv+"."), ".IsSelf")
+				ctx := roleFacts{}
+				for f := range tview.FactsAt(b) {
+					if f.k != factTrue && f.k != factFalse {
+						continue
+					}
+					fp := accessPath(f.v)
+					if strings.HasPrefix(fp, recv+".") && strings.HasSuffix(fp, ".IsSelf") {
+						ctx[strings.TrimSuffix(strings.TrimPrefix(fp, recv+"."), ".IsSelf")] = f.k == factTrue
+					}
+				}
+				for i, su := range b.Succs {
+					ins := tview.Instrs(su)
+					if len(tview.Succs(su)) != 0 || len(ins) == 0 {
+						continue
+					}
+					if _, isRet := ins[len(ins)-1].(*ssa.Return); isRet {
+						continue
+					}
+					if _, isCall := ins[len(ins)-1].(ssa.CallInstruction); !isCall {
+						continue
+					}
+					isSelfOnError := (i == 0) != neg
+					var ck []string
+					for f, v := range ctx {
+						ck = append(ck, fmt.Sprintf("%s=%v", f, v))
+					}
+					sort.Strings(ck)
+					key := fmt.Sprintf("%s|%v|%v", field, !isSelfOnError, ck)
+					if seenReq[key] {
+						continue
+					}
+					seenReq[key] = true
+					w := p.instrPos(ins[len(ins)-1])
+					reqs = append(reqs, req{field, !isSelfOnError, ctx, w})
+				}
+			}
+		}
+		if len(reqs) == 0 {
+			continue
+		}
+		sort.Slice(reqs, func(i, j int) bool {
+			return reqs[i].field+fmt.Sprint(reqs[i].ctx) < reqs[j].field+fmt.Sprint(reqs[j].ctx)
+		})
+		for _, rq := range reqs {
+			n++
+			var ck []string
+			for f, v := range rq.ctx {
+				ck = append(ck, fmt.Sprintf("%s=%v", f, v))
+			}
+			sort.Strings(ck)
+			construct := fmt.Sprintf("role-of-%s:self=%v", rq.field, rq.need)
+			if len(ck) > 0 {
+				construct += fmt.Sprintf("-when[%s]", strings.Join(ck, ","))
+			}
+			bad := ""
+			for _, pr := range p.successPathRoles(m) {
+				applies := true
+				for f, v := range rq.ctx {
+					if w, known := pr.roles[f]; known && w != v {
+						applies = false
+					}
+				}
+				if !applies {
+					continue
+				}
+				if w, known := pr.roles[rq.field]; !known || w != rq.need {
+					bad = pr.exit
+				}
+			}
+			want := "is not"
+			if rq.need {
+				want = "is"
+			}
+			if bad != "" {
+				r.add(fnName(m.Fn), construct, Violated, p.pos(m.Fn.Pos()),
+					fmt.Sprintf("the interpreter stops with a run-time error unless %s %s the process's own channel (%s), but the typing rule can succeed (%s) without having tested that: an accepted program fails when it runs", rq.field, want, rq.where, bad))
+			} else {
+				r.add(fnName(m.Fn), construct, Holds, p.pos(m.Fn.Pos()), fmt.Sprintf("every success exit in that situation knows that %s %s the provider", rq.field, want))
+			}
+		}
+	}
+	r.count("role requirements of the interpreter", n)
+}
+
+type pathRoles struct {
+	roles roleFacts
+	exit  string
+}
+
+// successPathRoles enumerates, for a typing rule, the distinct combinations of provider-test
+// outcomes (per name field of the form) along the paths from the entry to a success exit.
+func (p *Program) successPathRoles(m *tcMethod) []pathRoles {
+	view := p.View(m.Fn)
+	exits := map[ssa.Instruction]bool{}
+	for _, ret := range p.successExits(m) {
+		exits[ret] = true
+	}
+	var out []pathRoles
+	seenSig := map[string]bool{}
+	budget := 50000
+	fieldOf := func(cond ssa.Value) (string, bool, bool) { // field, negated, ok
+		neg := false
+		if u, ok := cond.(*ssa.UnOp); ok && u.Op == token.NOT {
+			cond, neg = u.X, true
+		}
+		c, ok := cond.(*ssa.Call)
+		if !ok || !p.isProviderFunc(c.Common().StaticCallee()) {
+			return "", false, false
+		}
+		ap := accessPath(c.Common().Args[0])
+		if !strings.HasPrefix(ap, m.Recv.Name()+".") {
+			return "", false, false
+		}
+		return strings.TrimPrefix(ap, m.Recv.Name()+"."), neg, true
+	}
+	var dfs func(b *ssa.BasicBlock, roles roleFacts, onPath map[*ssa.BasicBlock]bool)
+	dfs = func(b *ssa.BasicBlock, roles roleFacts, onPath map[*ssa.BasicBlock]bool) {
+		budget--
+		if budget < 0 {
+			return
+		}
+		ins := view.Instrs(b)
+		for _, in := range ins {
+			if exits[in] {
+				var ks []string
+				for f, v := range roles {
+					ks = append(ks, fmt.Sprintf("%s=%v", f, v))
+				}
+				sort.Strings(ks)
+				sig := p.instrPos(in) + "|" + strings.Join(ks, ",")
+				if !seenSig[sig] {
+					seenSig[sig] = true
+					cp := roleFacts{}
+					for f, v := range roles {
+						cp[f] = v
+					}
+					out = append(out, pathRoles{cp, p.instrPos(in)})
+				}
+			}
+		}
+		succs := view.Succs(b)
+		var cond ssa.Value
+		if len(ins) > 0 {
+			if iff, ok := ins[len(ins)-1].(*ssa.If); ok {
+				cond = iff.Cond
+			}
+		}
+		for i, su := range succs {
+			if onPath[su] {
+				continue
+			}
+			nr := roles
+			if cond != nil && len(succs) == 2 {
+				if f, neg, ok := fieldOf(cond); ok {
+					val := (i == 0) != neg
+					if old, known := roles[f]; known && old != val {
+						continue // contradictory path
+					}
+					nr = roleFacts{}
+					for k, v := range roles {
+						nr[k] = v
+					}
+					nr[f] = val
+				}
+			}
+			onPath[su] = true
+			dfs(su, nr, onPath)
+			delete(onPath, su)
+		}
+	}
+	e := m.Fn.Blocks[0]
+	dfs(e, roleFacts{}, map[*ssa.BasicBlock]bool{e: true})
+	return out
+}
+
+// R-BINDER-TYPE (C07, C01, C05): a binder is given a component of the type it was cut out of.
+func init() {
+	register(&Rule{Name: "R-BINDER-TYPE", Min: 8,
+		Doc: "the type under which a typing rule inserts a binder into the context is a component of the principal channel's type (a field of the constructor the rule asserted, an option's type), the consumed type itself (split), an annotation stored in the form or a declared signature - never the provider's whole type handed to the rule, which would let the continuation use the binder at the type of the process itself",
+		Run: runBinderType})
+}
+
+func runBinderType(p *Program, r *RuleResult) {
+	n := 0
+	for _, m := range p.typecheckMethods() {
+		ord := map[string]int{}
+		for _, b := range m.Fn.Blocks {
+			for _, in := range b.Instrs {
+				mu, ok := in.(*ssa.MapUpdate)
+				if !ok || !isCtxType(mu.Map.Type()) {
+					continue
+				}
+				key := accessPath(mu.Key)
+				if !strings.HasSuffix(key, ".Ident") {
+					continue
+				}
+				// the stored NamesType{Type: v}
+				var tv ssa.Value
+				if ld, ok := mu.Value.(*ssa.UnOp); ok {
+					if al, ok := ld.X.(*ssa.Alloc); ok && al.Referrers() != nil {
+						for _, u := range *al.Referrers() {
+							if fa, ok := u.(*ssa.FieldAddr); ok {
+								if _, fname, _ := fieldNameOf(fa); fname == "Type" {
+									for _, st := range storesTo(fa) {
+										tv = st.Val
+									}
+								}
+							}
+						}
+					}
+				}
+				if tv == nil {
+					continue
+				}
+				n++
+				ord[key]++
+				construct := fmt.Sprintf("binder-type:%s#%d", strings.TrimSuffix(key, ".Ident"), ord[key])
+				// does the value reach the provider-type parameter without selecting a component?
+				whole := false
+				seen := map[ssa.Value]bool{}
+				var walk func(v ssa.Value, d int)
+				walk = func(v ssa.Value, d int) {
+					if d > 10 || seen[v] || whole {
+						return
+					}
+					seen[v] = true
+					switch x := v.(type) {
+					case *ssa.Parameter:
+						if x == m.Provider {
+							whole = true
+						}
+					case *ssa.Call:
+						// Unfold-like: session type in, session type out
+						if sc := x.Common().StaticCallee(); sc != nil && len(x.Common().Args) > 0 && isSessionTypeType(x.Type()) && isSessionTypeType(x.Common().Args[0].Type()) {
+							walk(x.Common().Args[0], d+1)
+						}
+					case *ssa.Phi:
+						for _, e := range x.Edges {
+							walk(e, d+1)
+						}
+					case *ssa.MakeInterface:
+						walk(x.X, d+1)
+					case *ssa.ChangeInterface:
+						walk(x.X, d+1)
+					case *ssa.Extract:
+						if ta, ok := x.Tuple.(*ssa.TypeAssert); ok && x.Index == 0 {
+							// the asserted constructor as a whole is still the whole type
+							walk(ta.X, d+1)
+						}
+					case *ssa.UnOp:
+						if al, ok := x.X.(*ssa.Alloc); ok {
+							for _, st := range storesTo(al) {
+								walk(st.Val, d+1)
+							}
+						}
+						// a load of a field (component, annotation): stop - not the whole type
+					}
+				}
+				walk(tv, 0)
+				if whole {
+					r.add(fnName(m.Fn), construct, Violated, p.instrPos(mu),
+						fmt.Sprintf("%s is put into the context at the provider's own type (the type parameter of the rule, undecomposed): the continuation may use the new name as if it were the process's own channel", strings.TrimSuffix(key, ".Ident")))
+				} else {
+					r.add(fnName(m.Fn), construct, Holds, p.instrPos(mu), "")
+				}
+			}
+		}
+	}
+	r.count("binder insertions", n)
+}
